@@ -66,7 +66,7 @@ def parseTy (j : Json) : Except String TyInfo := do
   let sl ← match j.getObjVal? "stringLookup" with
     | .ok v => parseLookup v
     | .error _ => pure .none
-  pure { kind := parseKind (← getStr j "kind"), str := ← getStr j "str", name := ← getStr j "name",
+  pure { kind := parseKind (← getStr j "kind"), str := ← getStr j "str", qstr := ← getStr j "qstr", name := ← getStr j "name",
          pkgPath := ← getOptStr j "pkgPath", pkgName := ← getStr j "pkgName", elem := ← getNat j "elem",
          isStruct := ← getBool j "isStruct", isInvalid := ← getBool j "isInvalid",
          underStr := ← getStr j "underStr", fields := fields, methods := methods, stringLookup := sl }
